@@ -262,6 +262,7 @@ class Session:
         ev = dict(c)
         before = self.loglen()
         knobs_before = self.knobs()
+        ev["start_inlim"] = len(self.oracle.inlim(knobs_before)) == spec["nk"]   # e.g. not after a step() that raised in the middle of a Jacobian evaluation and left a probe point
         row0 = None
         first_kind = "tag"
         ev.update(en_v=[], en_t=[], dis_v=[], dis_t=[], twin_same=True, unit_weights=spec["unit_weights"], restore=spec["restore"])
